@@ -714,6 +714,99 @@ def translate(repo):
     out.append("Definition seek_cursor (offset filesize bpc : Z) : Z * Z * Z :=\n  let cindex := 0 in let coffpos := 0 in let bpos := 0 in\n  "
                + t.stmts(blk, "(bpos, cindex, coffpos)") + ".\n")
 
+    # ---- get_cluster_chain: the prelude (which link values are followed: max_data_cluster; the last cluster of the volume) and the body of
+    # its `while True` loop — [refuse i] / visited += 1 / [loop limit] / classification of fat[i] (follow, stop, raise) / i = fat[i]
+    gc = find_fn(pfc, "get_cluster_chain")
+    arg = gc.args.args[1].arg
+    loc = {}              # local name -> coq expr (functions of ft / s / h)
+    loop = None
+    key_of = {}
+
+    class ChainTr(FnTr):
+        def expr(self, n):
+            if isinstance(n, ast.Subscript) and isinstance(n.value, ast.Name) and n.value.id == "cluster_vals" \
+                    and isinstance(n.slice, ast.Constant) and n.slice.value in keys:
+                return f"({n.slice.value} ft)"
+            if isinstance(n, ast.Subscript) and isinstance(n.value, ast.Attribute) and n.value.attr == "fat" \
+                    and isinstance(n.slice, ast.Name) and n.slice.id == "i":
+                return "v"
+            if isinstance(n, ast.Call) and isinstance(n.func, ast.Name) and n.func.id == "len" and len(n.args) == 1 \
+                    and isinstance(n.args[0], ast.Attribute) and n.args[0].attr == "fat":
+                return "len_fat"
+            if isinstance(n, ast.Attribute) and isinstance(n.value, ast.Name) and n.value.id == "self" and n.attr == "fat_type":
+                return "ft"
+            if isinstance(n, ast.Name) and n.id in loc:
+                return loc[n.id]
+            return super().expr(n)
+    ct = ChainTr(dict(common, methods={"_get_total_sectors": "(get_total_sectors h)", "get_total_sectors": "(get_total_sectors h)"}))
+    for st_ in gc.body:
+        if isinstance(st_, ast.Expr) and isinstance(st_.value, ast.Constant):
+            continue
+        if isinstance(st_, ast.While):
+            loop = st_
+            break
+        if not (isinstance(st_, ast.Assign) and isinstance(st_.targets[0], ast.Name)):
+            raise Unsupported("get_cluster_chain prelude statement")
+        name = st_.targets[0].id
+        if name == "cluster_vals":
+            v_ = st_.value
+            if not (isinstance(v_, ast.Subscript) and isinstance(v_.value, ast.Attribute) and v_.value.attr == "FAT_CLUSTER_VALUES"
+                    and isinstance(v_.slice, ast.Attribute) and v_.slice.attr == "fat_type"):
+                raise Unsupported("cluster_vals")
+            continue
+        if name in ("i", "visited"):
+            init_ok = (name == "i" and isinstance(st_.value, ast.Name) and st_.value.id == arg) or \
+                      (name == "visited" and isinstance(st_.value, ast.Constant) and st_.value.value == 0)
+            if not init_ok:
+                raise Unsupported("get_cluster_chain loop variables")
+            continue
+        loc[name] = ct.ex(st_.value)
+    if loop is None or not (isinstance(loop.test, ast.Constant) and loop.test.value is True) or len(loop.body) != 5:
+        raise Unsupported("get_cluster_chain loop shape")
+    b0, b1, b2, b3, b4 = loop.body
+    only_raise = lambda bl: len(bl) == 1 and isinstance(bl[0], ast.Raise)  # noqa
+    if not (isinstance(b0, ast.If) and only_raise(b0.body) and not b0.orelse):
+        raise Unsupported("get_cluster_chain range check")
+    if not (isinstance(b1, ast.AugAssign) and isinstance(b1.target, ast.Name) and b1.target.id == "visited" and isinstance(b1.op, ast.Add)
+            and isinstance(b1.value, ast.Constant) and b1.value.value == 1):
+        raise Unsupported("get_cluster_chain visit counter")
+    if not (isinstance(b2, ast.If) and only_raise(b2.body) and not b2.orelse):
+        raise Unsupported("get_cluster_chain loop limit")
+    if not (isinstance(b4, ast.Assign) and isinstance(b4.targets[0], ast.Name) and b4.targets[0].id == "i"
+            and isinstance(b4.value, ast.Subscript) and isinstance(b4.value.value, ast.Attribute) and b4.value.value.attr == "fat"
+            and isinstance(b4.value.slice, ast.Name) and b4.value.slice.id == "i"):
+        raise Unsupported("get_cluster_chain step")
+
+    def action(bl):
+        kinds = [type(x) for x in bl]
+        is_yield_i = lambda x: isinstance(x, ast.Expr) and isinstance(x.value, ast.Yield) and isinstance(x.value.value, ast.Name) and x.value.value.id == "i"  # noqa
+        if len(bl) == 1 and is_yield_i(bl[0]):
+            return "0"
+        if len(bl) == 2 and is_yield_i(bl[0]) and isinstance(bl[1], ast.Return) and bl[1].value is None:
+            return "1"
+        if only_raise(bl):
+            return "2"
+        raise Unsupported(f"get_cluster_chain branch {kinds}")
+    branches = []
+    cur = b3
+    while True:
+        if not isinstance(cur, ast.If):
+            raise Unsupported("get_cluster_chain classification")
+        branches.append((ct.bex(cur.test), action(cur.body)))
+        if len(cur.orelse) == 1 and isinstance(cur.orelse[0], ast.If):
+            cur = cur.orelse[0]
+            continue
+        last = action(cur.orelse)
+        break
+    out.append(f"Definition chain_last_cluster (s : pf) (h : hdr) : Z :=\n  {loc['last_cluster']}.\n")
+    out.append(f"Definition chain_max_data (s : pf) (h : hdr) (ft : Z) : Z :=\n  {loc['max_data_cluster']}.\n")
+    out.append("(* the cluster number [i] is refused before its entry is looked at *)\n")
+    out.append(f"Definition chain_refuse (s : pf) (h : hdr) (ft len_fat i : Z) : bool :=\n  {ct.bex(b0.test)}.\n")
+    out.append(f"Definition chain_loop_limit (len_fat visited : Z) : bool :=\n  {ct.bex(b2.test)}.\n")
+    out.append("(* what the entry [v = fat[i]] means: 0 = yield i and follow it, 1 = yield i and stop, 2 = raise *)\n")
+    out.append("Definition chain_class (s : pf) (h : hdr) (ft v : Z) : Z :=\n  "
+               + " else ".join(f"if {c} then {a}" for c, a in branches) + f" else {last}.\n")
+
     out.append("End Gen.\n")
     return "".join(out)
 
